@@ -78,11 +78,55 @@ def lemmas(idx):
     notes['covered_functions'] = len(cover); notes['distinct_statements'] = n; notes['untranslated_count'] = len(notes['untranslated'])
     return files, notes, cover
 
+MTYPES = {'Mat2': 'f32', 'Mat3': 'f32', 'Mat3A': 'f32', 'Mat4': 'f32', 'DMat2': 'f64', 'DMat3': 'f64', 'DMat4': 'f64'}
+def entrywise(idx):
+    """structural lemmas (all Ops): add_mat / sub_mat / mul_scalar / div_scalar / Neg and the operator forms are the entry-wise primitive - one correctly
+    rounded operation per entry (the algebraic lemmas cannot tell x / s from x * (1 / s))"""
+    from ..core import ty_shape
+    out = []; seen = set(); k_ = 0
+    for cfg in CFGS:
+        structs = idx.structs(cfg)
+        for f in idx.fns(cfg):
+            st = f['self']; tn = tname(st) if st is not None else None
+            if tn not in MTYPES or f['generic'] or f['by_ref'] or f['fid'] is None or not f['has_self']: continue
+            k = MTYPES[tn]; ps = f['params']; tr = f['trait'][0] if f['trait'] else None; name = f['name']
+            op = None
+            if (tr in ('Add', 'Sub') or name in ('add_mat2', 'add_mat3', 'add_mat4', 'sub_mat2', 'sub_mat3', 'sub_mat4')) and len(ps) == 1 and tname(ps[0][1]) == tn: op = ('FAdd' if (tr == 'Add' or name.startswith('add')) else 'FSub', 'mat')
+            elif (tr in ('Mul', 'Div') or name in ('mul_scalar', 'div_scalar')) and len(ps) == 1 and ps[0][1] == k: op = ('FMul' if (tr == 'Mul' or name == 'mul_scalar') else 'FDiv', 'scalar')
+            else: continue
+            if tr and tr.endswith('Assign'): continue
+            try:
+                vs = []; a = sym(structs, st, 'a', vs); A = [l[2] for l in tree_leaves(a)]; rt = sym(structs, st, 'r', [])
+                if op[1] == 'mat': b = sym(structs, st, 'b', vs); Bv = [l[2] for l in tree_leaves(b)]; lanes = ['(%s_2 O %s %s %s)' % (k, op[0], x, y) for x, y in zip(A, Bv)]
+                else: b = sym(structs, k, 'b', vs); lanes = ['(%s_2 O %s %s %s)' % (k, op[0], x, b[2]) for x in A]
+                run = 'run O tbl 200 %d%%positive [%s; %s]' % (f['fid'], tree_coq(a), tree_coq(b)); sh = ty_shape(structs, st)
+                lhs = ('rerase O (%s) (%s)' % (sh, run)) if core.shape_has_hidden(sh) else run
+                stmt = (lhs, 'Ok (%s)' % tree_fill(rt, iter(lanes)))
+                if stmt in seen: continue
+                seen.add(stmt); k_ += 1
+                out.append(core.Lemma('mew_%d' % k_, vs, stmt[0], stmt[1], meta={'cfg': cfg, 'key': f['key'], 'file': f['file'], 'fid': f['fid'], 'did': f['did'], 'covers': ['%s:%s' % (cfg, f['key'])], 'spec': 'entry-wise %s' % op[0]}))
+            except SymErr: continue
+    return out
+
 def run(tier, seed):
     t0 = time.time(); idx, info = flow.prepare()
     files, notes, cover = lemmas(idx)
+    ew = entrywise(idx); core.LEMMA_TIMEOUT[0] = 60
+    nobe, nde, efail, _ = core.prove_files(core.BUILD + '/props/C03_ew', {'Mew_%03d' % (i // 12): ew[i:i + 12] for i in range(0, len(ew), 12)}, hdr=core.HDR, footer='') if ew else (0, 0, [], {})
+    notes['entrywise_structural_lemmas'] = {'stated': nobe, 'proved': nde}
+    eextra = []
+    for l, err in efail:
+        cx = None
+        try: cx, _ = flow.search_counterexample(idx, l, seed)
+        except Exception: pass
+        obj = {'kind': 'counterexample' if cx else 'unproved', 'theorem': l.name, 'statement': l.statement()[:1500], 'meta': l.meta, 'coq_error': err[-400:], 'how_found': 'entry-wise matrix operators must be the per-entry primitive'}
+        if cx:
+            obj.update(cx)
+            try: obj.update(flow.confirm_on_crate(idx, l, cx))
+            except Exception: pass
+        eextra.append((obj, cx is not None))
     per_fn = 6 if tier == 'quick' else 60
     return f1.run('C03', tier, seed, idx, info, t0, files, notes, cover, alg.BOILER, per_fn,
         'one algebraic lemma per determinant / inverse / product / entry-wise operation of the 7 matrix types in the sse2, scalar-math and core-simd tables, over an arbitrary field (vm_compute + ring/field); correspondence: %d random calls per function, including small-integer matrices' % per_fn,
         ['reference formulas (Leibniz determinant, cofactors, sums of products) generated in harness/alg.py', 'field axioms only: no floating-point rounding in these statements'],
-        ['rounding-error bounds and exactness on the integer lattice are not proved in this round; the correspondence run exercises small-integer matrices bit-for-bit'], footer=alg.FOOTER)
+        ['rounding-error bounds and exactness on the integer lattice are not proved in this round; the correspondence run exercises small-integer matrices bit-for-bit'], footer=alg.FOOTER, extra={'extra_violations': eextra})
